@@ -158,9 +158,6 @@ def justified : List Just :=
     ⟨⟨113327099596496, "internal/mode/static/state/graph/backend_tls_policy.go", "processBackendTLSPolicies", "ifield", "gateway.Source",
        "none", "", 2⟩,
       .ngfConstructed, "graph nodes are only created by the build*/process* constructors from a stored object, which always set Source"⟩,
-    ⟨⟨21728540247063, "internal/mode/static/state/graph/backend_tls_policy.go", "processBackendTLSPolicies", "index", "backendTLSPolicy.Spec.Validation.CACertificateRefs[0]",
-       "none", "", 1⟩,
-      .mirrored, "guarded by `valid && … != nil` only; KNOWN FINDING C05:panic:backend_tls_policy.go:graph.processBackendTLSPolicies:index (an empty, non-nil list with wellKnownCACertificates is admissible and valid): NilGuards.Btp.process_partial + Btp.empty_caRefs_witness"⟩,
     ⟨⟨250094361886401, "internal/mode/static/state/graph/backend_tls_policy.go", "validateBackendTLSWellKnownCACerts", "field", "btp.Spec.Validation.WellKnownCACertificates",
        "none", "", 1⟩,
       .callerChecks, "only caller validateBackendTLSPolicy calls it under `case wellKnownCerts != nil`"⟩,
